@@ -254,8 +254,6 @@ def check_gate(ctx):
             else:
                 bad = bad or (e, 'the merge does not distinguish defaults '
                               'with a deprecated rule')
-    ctx.floor('C11.GATE', n_dep, 1, 'deprecated merges')
-    ctx.floor('C11.GATE', n_plain, 1, 'plain merges')
     ctx.ob('C11.GATE', bad is None,
            '%s:%d' % (F, bad[0].line) if bad else ctx.where(lr.module,
                                                             lr.node),
@@ -264,6 +262,8 @@ def check_gate(ctx):
            'the handler\'s result is what is stored for a default with a '
            'deprecated rule, and only for names without a file override'
            if bad is None else bad[1])
+    ctx.floor('C11.GATE', n_dep, 1, 'deprecated merges')
+    ctx.floor('C11.GATE', n_plain, 1, 'plain merges')
 
 
 def check_opt(ctx):
